@@ -196,7 +196,7 @@ pub fn insert_composite(sim: &Sim, id: Id, specs: &[ChildSpec], script: &Script)
                 children.push(Ch::Timer(MaybeTimer { t: Timer::from_duration(std::time::Duration::MAX), armed: false }.into()));
                 models.push(ChildM::Timer { deadline: None, fired: false, user_parked: true });
             }
-            ChildSpec::Sock | ChildSpec::SameFd => {
+            ChildSpec::Sock | ChildSpec::SameFd | ChildSpec::Eager => {
                 let (a, b) = os::socketpair();
                 let own = SharedFd(Rc::new(a));
                 children.push(Ch::Sock(Generic::new(own.clone(), Interest::READ, Mode::Level).into()));
